@@ -1158,13 +1158,22 @@ class SymCtx:
         return SymX(r)
 
     def uf_sqrt(self, x):
-        f = self.uf('SQRT', 1)
+        """sqrt(x) for x >= 0: a constant r with r >= 0 and r*r = x (one per syntactically distinct argument).
+        No function symbol is used, so queries stay in pure non-linear real arithmetic (nlsat); congruence
+        for semantically equal arguments follows from uniqueness of the non-negative root."""
         xt = _simp(x.t)
-        r = f(xt)
         apps = self.uf_apps.setdefault('SQRT', [])
-        if not any(a.eq(xt) for a, _ in apps):
-            self._fact(z3.And(r >= 0, r * r == xt))
-            apps.append((xt, r))
+        for a, ra in apps:
+            if a.eq(xt):
+                return SymX(ra)
+        if z3.is_rational_value(xt):
+            f = Fraction(xt.numerator_as_long(), xt.denominator_as_long())
+            rn, rd = math.isqrt(f.numerator), math.isqrt(f.denominator)
+            if rn * rn == f.numerator and rd * rd == f.denominator:
+                return SymX(z3.RealVal(str(Fraction(rn, rd))))
+        r = z3.Real('sqrt!%d' % len(apps))
+        self._fact(z3.And(r >= 0, r * r == xt))
+        apps.append((xt, r))
         return SymX(r)
 
     def uf_pow(self, b, e):
@@ -1191,8 +1200,12 @@ class SymCtx:
             if c:
                 self.claims.append((name, 'folded', None))
                 return True
-            # constant false: counterexample = any model of the pc
-            self._ensure_model()
+            # constant false: counterexample = any model of the pc (if the pc is satisfiable at all)
+            self.model_valid = False
+            self._ensure_model()   # raises Infeasible when the path is dead
+            if not self.model_valid:
+                self.claims.append((name, 'unknown', None))
+                return None
             self.claims.append((name, 'sat', None))
             if self.cex is None:
                 self.cex = (name, self._extract(self.model))
